@@ -4,6 +4,7 @@ from __future__ import annotations
 import sys
 
 from .. import common, suitio, cbortree as ct
+import json
 from ..common import Result, Driver, stage_a, finish
 
 PROP = "C08"
@@ -230,12 +231,64 @@ def run(tier: str, seed: int) -> int:
         res.case(["tag", cname])
         if cls is None or cls._metadata.tag.value != t:
             res.spec_failures.append({"class": cname, "expected_tag": t, "what": "CBOR tag number differs from the registry"})
+    tag_behaviour(res, order, dict(reg["tags"]))
     res.notes["not_in_registry"] = sorted(set(not_in_registry))
     res.notes["key_spaces"] = {k: len(v[2]) for k, v in spaces.items()}
     res.sample({"space": "SuitDirective", "name": "suit-directive-fetch", "desc": {"suit-directive-fetch": []}, "wire": "8215" "00"})
     res.exhaustive = True
     drv.close()
     return finish(res, st, RULE, NOTE)
+
+
+def tag_behaviour(res, order, tags):
+    """the tag numbers as behaviour: an item is read as the envelope / COSE_Sign1 / COSE_Encrypt exactly when it carries that class's registered tag (written
+    back under the same tag); the same content under any other tag number, or under none, is not read as that class - also inside an authentication wrapper"""
+    import cbor2
+    from .. import suitio
+    sign1 = [cbor2.dumps({1: -7}), {4: b"\x01"}, None, b"\x02" * 64]
+    encrypt = [cbor2.dumps({1: 3}), {5: b"\x03" * 12}, None, [[b"", {1: -6, 4: b"\x09"}, None]]]
+    created = suitio.impl_create({"SUIT_Envelope_Tagged": {"suit-authentication-wrapper": {"SuitDigest": {"suit-digest-algorithm-id": "cose-alg-sha-256"}},
+                                                          "suit-manifest": {"suit-manifest-version": 1, "suit-manifest-sequence-number": 1}}})
+    bodies = {"CoseSign1Tagged": sign1, "CoseEncryptTagged": encrypt}
+    if "ok" in created:
+        bodies["SuitEnvelopeTagged"] = cbor2.loads(bytes.fromhex(created["ok"])).value
+    others = [16, 17, 18, 19, 96, 97, 98, 106, 107, 108, 24, 1070, 55799, None]
+    # the classes themselves, not the byte-string wrappers that take over their names once instantiated (cbstr() copies __name__)
+    from suit_generator.suit import security, envelope
+    real = {"CoseSign1Tagged": security.CoseSign1Tagged, "CoseEncryptTagged": security.CoseEncryptTagged, "SuitAuthentication": security.SuitAuthentication,
+            "SuitEnvelopeTagged": envelope.SuitEnvelopeTagged}
+    for cname, body in bodies.items():
+        cls = real.get(cname)
+        if cls is None or cname not in tags:
+            continue
+        for t in others:
+            b = cbor2.dumps(cbor2.CBORTag(t, body)) if t is not None else cbor2.dumps(body)
+            res.case(["tag-behaviour", cname, t], nontrivial=True)
+            res.count("tag-behaviour")
+            try:
+                o = cls.from_cbor(b)
+                back = o.to_cbor()
+                outcome = "accepted"
+            except BaseException:  # noqa
+                outcome, back = "rejected", None
+            if t == tags[cname]:
+                if outcome != "accepted" or back != b:
+                    res.spec_failures.append({"class": cname, "tag": t, "item": b.hex(), "written_back": back.hex() if back else None, "what": f"an item carrying the registered tag {t} is not read as {cname} and written back unchanged ({outcome})"})
+            elif outcome == "accepted":
+                res.spec_failures.append({"class": cname, "tag": t, "written_back_under": back[:3].hex() if back else None,
+                                          "what": f"an item tagged {t} is read as {cname} (registered tag {tags[cname]})" if t is not None else f"an untagged item is read as {cname}"})
+    # in context: an authentication wrapper whose block carries another COSE tag (COSE_Mac0 = 17, COSE_Sign = 98) is not described as a COSE_Sign1
+    auth = real["SuitAuthentication"]
+    for t in (17, 98, 16):
+        w = cbor2.dumps([cbor2.dumps([-16, b"\x00" * 32]), cbor2.dumps(cbor2.CBORTag(t, sign1))])
+        res.case(["tag-behaviour", "SuitAuthentication", t], nontrivial=True)
+        try:
+            o = auth.from_cbor(w)
+            desc, back = o.to_obj(), o.to_cbor()
+        except BaseException:  # noqa
+            continue
+        if "CoseSign1Tagged" in json.dumps(desc) or back != w:
+            res.spec_failures.append({"class": "SuitAuthentication", "tag": t, "what": f"an authentication block tagged {t} is described as CoseSign1Tagged or written back differently"})
 
 
 def replay(payload: dict) -> int:
